@@ -388,9 +388,10 @@ fn handle(req: &Value) -> Value {
                             lg.lock().unwrap().push(json!({"fid": fid, "args": args.iter().map(|a| from_var(a)).collect::<Vec<_>>()}));
                             Ok(Rcvar::new(Variable::String(format!("f{}", fid))))
                         };
-                        if fid == 2 {
+                        if fid >= 2 {
                             let sig: Vec<ArgumentType> = o[3].as_array().unwrap().iter().map(|s| arg_type(s.as_str().unwrap())).collect();
-                            rt.register_function(name, Box::new(CustomFunction::new(Signature::new(sig, None), Box::new(body))));
+                            let variadic = o.get(4).and_then(|v| v.as_str()).map(arg_type);
+                            rt.register_function(name, Box::new(CustomFunction::new(Signature::new(sig, variadic), Box::new(body))));
                         } else {
                             rt.register_function(name, Box::new(body));
                         }
